@@ -182,6 +182,10 @@ type State struct {
 	nilChecked map[string]bool
 	ranged  map[string]bool
 	cellOrigin map[string]string
+	fin     map[string]string // float term -> real term, for terms known finite on this path
+	nonzero map[string]bool   // real terms known to be non-zero
+	finCount *int
+	declare func(name, sort string)
 }
 
 func (s *State) top() *Frame { return s.frames[len(s.frames)-1] }
@@ -221,6 +225,20 @@ func (s *State) clone() *State {
 			n.ranged[k] = true
 		}
 	}
+	if s.fin != nil {
+		n.fin = make(map[string]string, len(s.fin))
+		for k, v := range s.fin {
+			n.fin[k] = v
+		}
+	}
+	if s.nonzero != nil {
+		n.nonzero = make(map[string]bool, len(s.nonzero))
+		for k := range s.nonzero {
+			n.nonzero[k] = true
+		}
+	}
+	n.finCount = s.finCount
+	n.declare = s.declare
 	if s.cellOrigin != nil {
 		n.cellOrigin = make(map[string]string, len(s.cellOrigin))
 		for k, v := range s.cellOrigin {
@@ -265,6 +283,32 @@ func (s *State) assume(f string) {
 // resolved without a solver query.
 func (s *State) learn(f string) {
 	for _, c := range topConjuncts(f) {
+		if strings.HasPrefix(c, "(isfin ") && strings.HasSuffix(c, ")") && s.declare != nil {
+			t := c[7 : len(c)-1]
+			if _, done := s.fin[t]; !done && !strings.HasPrefix(t, "(fin ") {
+				if s.fin == nil {
+					s.fin = map[string]string{}
+				}
+				*s.finCount++
+				r := fmt.Sprintf("finr!%d", *s.finCount)
+				s.declare(r, "Real")
+				s.fin[t] = r
+				s.pc = append(s.pc, "(= "+t+" (fin "+r+"))")
+			}
+		}
+		// positivity / non-zero facts used by the division fast path
+		for _, pat := range [][2]string{{"(< 0 ", ")"}, {"(<= 1 ", ")"}, {"(< 0.0 ", ")"}} {
+			if strings.HasPrefix(c, pat[0]) && strings.HasSuffix(c, pat[1]) {
+				t := c[len(pat[0]) : len(c)-1]
+				if balancedOrAtom(t) {
+					if s.nonzero == nil {
+						s.nonzero = map[string]bool{}
+					}
+					s.nonzero[t] = true
+					s.nonzero["(to_real "+t+")"] = true
+				}
+			}
+		}
 		if strings.HasPrefix(c, "(= ") && strings.HasSuffix(c, ")") {
 			parts := splitSexp(c[3 : len(c)-1])
 			if len(parts) == 2 {
@@ -283,6 +327,13 @@ func (s *State) learn(f string) {
 			}
 		}
 	}
+}
+
+func balancedOrAtom(t string) bool {
+	if !strings.ContainsAny(t, "() ") {
+		return true
+	}
+	return strings.HasPrefix(t, "(") && balancedParen(t)
 }
 
 func topConjuncts(f string) []string {
